@@ -605,6 +605,155 @@ def rule_pure(ctx):
                         lambda i: True, 8)
 
 
+def _cfg_paths(cfg, limit=400):
+    """all acyclic entry->exit paths as lists of node ids"""
+    out, stack = [], [[cfg.entry.id]]
+    while stack:
+        pth = stack.pop()
+        last = pth[-1]
+        if last == cfg.exit.id:
+            out.append(pth)
+            if len(out) > limit:
+                raise AnalysisError("too many paths to enumerate")
+            continue
+        for s_ in cfg.succ[last]:
+            if s_ not in pth:
+                stack.append(pth + [s_])
+    return out
+
+
+def rule_maxcount(ctx):
+    """``MaxCounter`` backs the tracked largest intermediate (``_sizes``).  Two path
+    properties of ``discard`` decide whether ``max()`` stays the maximum of what the
+    counter holds: (A) on every path that removes the last copy of ``x`` and on which
+    nothing tested establishes ``x != maximum``, the maximum is re-assigned afterwards
+    (to the maximum of the rest, or to -inf when nothing is left); (B) the maximum is
+    never recomputed from the container while a copy of ``x`` that is put back later
+    on the same path is missing from it.  ``add`` takes the larger of old maximum and x."""
+    r = RuleResult("C04-MAXCOUNT", "the size tracker's maximum is the maximum of its contents", 2)
+    mc = ctx.p.cls(C.UTILS, "MaxCounter")
+    f = mc.methods.get("discard")
+    C.require(f is not None, "MaxCounter.discard not found")
+    x = f.positional[1]
+    fl = ctx.flow(f)
+    cfg = fl.cfg
+
+    def is_c(e):
+        return isinstance(e, ast.Attribute) and e.attr == "_c"
+
+    def events(nid):
+        n = cfg.nodes[nid]
+        st = n.ast
+        ev = []
+        if st is None or n.kind in ("entry", "exit", "raise"):
+            return ev
+        if n.kind == "test":
+            return ev
+        nodes_ = list(ast.walk(st)) if not isinstance(st, (ast.If, ast.Try, ast.For, ast.While, ast.With)) else []
+        for sub in nodes_:
+            if isinstance(sub, ast.Delete):
+                for t in sub.targets:
+                    if isinstance(t, ast.Subscript) and is_c(t.value) and C.unparse(t.slice) == x:
+                        ev.append("del")
+            if isinstance(sub, ast.Call) and isinstance(sub.func, ast.Attribute) and sub.func.attr == "pop" \
+                    and is_c(sub.func.value) and sub.args and C.unparse(sub.args[0]) == x:
+                ev.append("del")
+            if isinstance(sub, (ast.Assign, ast.AugAssign)):
+                tgts = sub.targets if isinstance(sub, ast.Assign) else [sub.target]
+                for t in tgts:
+                    if isinstance(t, ast.Subscript) and is_c(t.value) and C.unparse(t.slice) == x:
+                        ev.append("reinsert")
+                    if isinstance(t, ast.Attribute) and t.attr == "_max_element":
+                        rec = any(isinstance(y, ast.Call) and dotted(y.func) == "max" and y.args
+                                  and is_c(y.args[0]) for y in ast.walk(sub.value))
+                        ev.append("recompute" if rec else "setmax")
+        return ev
+
+    def rules_out_max(test, taken):
+        """the outcome of this test establishes x != self._max_element"""
+        def is_cmp(e, op):
+            return isinstance(e, ast.Compare) and len(e.ops) == 1 and isinstance(e.ops[0], op) and \
+                {C.unparse(e.left), C.unparse(e.comparators[0])} == {x, "self._max_element"}
+        if is_cmp(test, ast.Eq):
+            return not taken
+        if is_cmp(test, ast.NotEq):
+            return taken
+        if isinstance(test, ast.BoolOp) and isinstance(test.op, ast.And) and taken:
+            return any(is_cmp(v, ast.NotEq) for v in test.values)
+        if isinstance(test, ast.BoolOp) and isinstance(test.op, ast.Or) and not taken:
+            return any(is_cmp(v, ast.Eq) for v in test.values)
+        return False
+
+    keyA = ctx.key(f, "C04-MAXCOUNT", "reassigned-when-last-copy-goes")
+    keyB = ctx.key(f, "C04-MAXCOUNT", "recomputed-from-final-contents")
+    badA = badB = None
+    n_paths = 0
+    for pth in _cfg_paths(cfg):
+        n_paths += 1
+        evs, excluded = [], False
+        for i, nid in enumerate(pth):
+            n = cfg.nodes[nid]
+            if n.kind == "test" and isinstance(n.ast, ast.If) and i + 1 < len(pth):
+                taken = cfg.branch.get((nid, pth[i + 1]))
+                taken = bool(taken) if taken is not None else False
+                if rules_out_max(n.ast.test, taken):
+                    excluded = True
+            evs += [(e, nid) for e in events(nid)]
+        names = [e for e, _ in evs]
+        if "del" in names:
+            after = names[names.index("del"):]
+            gone = "reinsert" not in after
+            if gone and not excluded and not ({"recompute", "setmax"} & set(after)):
+                badA = pth
+        if "recompute" in names and "reinsert" in names[names.index("recompute"):]:
+            badB = pth
+    C.require(n_paths >= 3, "MaxCounter.discard: control flow not recognised")
+    if badA:
+        r.violation(keyA, f.loc, "a path removes the last copy of x without the tests on it establishing "
+                    "x != maximum, and leaves the maximum as it was: once the counter runs empty (or the "
+                    "maximum leaves) max() keeps reporting a size that is no longer held",
+                    path=cfg.describe_path(badA))
+    else:
+        r.ok(keyA, f.loc, f"{n_paths} paths: the maximum is re-assigned whenever the last copy of a "
+             "possibly-maximal element goes")
+    if badB:
+        r.violation(keyB, f.loc, "the maximum is recomputed from the container while x is temporarily "
+                    "removed and put back afterwards: with several copies of the maximum the counter "
+                    "forgets it although a tensor of that size is still held",
+                    path=cfg.describe_path(badB))
+    else:
+        r.ok(keyB, f.loc, "the maximum is recomputed only from the final contents")
+    a = mc.methods.get("add")
+    if a is not None:
+        keyC = ctx.key(a, "C04-MAXCOUNT", "add")
+        ok = any(isinstance(n, ast.Assign) and any(isinstance(t, ast.Attribute) and t.attr == "_max_element"
+                                                    for t in n.targets)
+                 and isinstance(n.value, ast.Call) and dotted(n.value.func) == "max"
+                 and {C.unparse(v) for v in n.value.args} == {"self._max_element", a.positional[1]}
+                 for n in walk_local(a.node))
+        if ok:
+            r.ok(keyC, a.loc, "add keeps max(old maximum, x)")
+        else:
+            r.violation(keyC, a.loc, "add does not set the maximum to max(old maximum, x)")
+    return r
+
+
+def rule_leaf(ctx):
+    """Shared with C02-LISTS (leaf branch): a sliced leaf loses its cached size."""
+    from .c02 import rule_lists
+    src = rule_lists(ctx)
+    r = RuleResult("C04-LEAF", "sliced leaves lose every slice-dependent cached figure", 1)
+    for i in src.instances:
+        if "::leaf" not in i.construct:
+            continue
+        c = i.construct.replace("C02-LISTS", "C04-LEAF")
+        if i.verdict == "violation":
+            r.violation(c, i.loc, i.reason, **i.detail)
+        else:
+            r.ok(c, i.loc, i.reason)
+    return r
+
+
 def rule_rebuild(ctx):
     """A loop that decides from a *child's* cached legs whether to delete and re-add
     the parent (``restore_ind``) is right only bottom-up: the child must already have
@@ -663,4 +812,4 @@ def rule_multpair(ctx):
 
 
 RULES = [rule_copy, rule_alias, rule_track, rule_staleread, rule_pre, rule_presource, rule_whole,
-         rule_presurv, rule_pure, rule_rebuild, rule_multpair]
+         rule_presurv, rule_pure, rule_rebuild, rule_multpair, rule_maxcount, rule_leaf]
